@@ -33,7 +33,9 @@ theorem noop_signal_exact_conv (u : Updater) (sc : Schema) (live cfg : TV) (ver 
         o = (if Value.equals live.value res.value then none else some res) :=
   apply_noop_signal_conv (u := u) (u' := exposing u) rfl rfl rfl h sc live cfg ver m mgr force o mf
 
-/-- the ownership result does not depend on the signalling mode -/
+/-- whether an apply is refused, and with which conflict list, does not depend on the signalling mode
+(that the managed fields of a successful apply do not depend on it either is `noop_signal_exact`
+and `noop_signal_exact_conv`: the same `mf` on both sides) -/
 theorem ownership_independent_of_noop_mode (u : Updater) (sc : Schema) (live cfg : TV) (ver : String) (m : Managed)
     (mgr : String) (force : Bool) (c : List (String × Path)) :
     apply u sc live cfg ver m mgr force = .conflict c ↔
